@@ -227,7 +227,7 @@ func (s *pd6) sendOne(w *World, c *Client6) {
 			h := &dhcpv6.OptIAPrefix{PreferredLifetime: 0, ValidLifetime: 0}
 			kind := ""
 			held := s.heldList(k)
-			hk := t.Draw(9)
+			hk := t.Draw(10)
 			if false && (hk == 2 || hk == 8) {
 				hk = 0 // wire-only zero-length hints are a known-finding trigger (C01)
 			}
@@ -309,6 +309,22 @@ func (s *pd6) sendOne(w *World, c *Client6) {
 					break
 				}
 				fallthrough
+			case 9:
+				// a block-sized prefix next to the pool: the block right after its end, the one just before its base, and
+				// the ones exactly one pool size away on either side (index == number of blocks, or minus that)
+				nb := int64(s.n)
+				d := []int64{nb, nb, -1, -nb, nb + 1, -2}[t.Pick(6)]
+				step := new(big.Int).Lsh(big.NewInt(1), uint(128-s.alloc))
+				v := new(big.Int).SetBytes(s.blockBase(0).To16())
+				v.Add(v, step.Mul(step, big.NewInt(d)))
+				ip := net.ParseIP("2001:db9:ffff::")
+				if v.Sign() >= 0 && v.BitLen() <= 128 {
+					ip = net.IP(v.FillBytes(make([]byte, 16)))
+				}
+				h.Prefix = &net.IPNet{IP: ip, Mask: net.CIDRMask(s.alloc, 128)}
+				kind = fmt.Sprintf("next-to-pool(%+d blocks from the base) %s/%d", d, ip, s.alloc)
+				pr.empty = false
+				w.Probe("pd.hint_next_to_pool")
 			case 7:
 				ip := net.ParseIP("2001:db9:ffff::")
 				h.Prefix = &net.IPNet{IP: ip, Mask: net.CIDRMask(s.alloc, 128)}
